@@ -21,7 +21,10 @@ type Gen struct {
 	M   *Model
 	// Rich adds account attributes that only matter to persistence (C41): comments, attributes, TLS requirements.
 	Rich bool
-	n    int
+	// NoRegrant never grants a role to an account that already holds it (the engine then stores a second edge when
+	// the ADMIN OPTION differs — a C39 finding that C41 keeps out of its states).
+	NoRegrant bool
+	n         int
 }
 
 var (
@@ -153,19 +156,21 @@ func (g *Gen) createUser() Step {
 		q += "IF NOT EXISTS "
 	}
 	q += "'" + name + "'@'" + host + "'"
+	plugin := "mysql_native_password"
 	if pw != "" {
-		q += " IDENTIFIED BY '" + pw + "'"
+		if g.Rich && g.Rnd.Intn(5) == 0 {
+			plugin = "caching_sha2_password"
+			q += " IDENTIFIED WITH caching_sha2_password BY '" + pw + "'"
+		} else {
+			q += " IDENTIFIED BY '" + pw + "'"
+		}
 	}
 	if g.Rich {
-		switch g.Rnd.Intn(6) {
+		switch g.Rnd.Intn(5) {
 		case 0:
 			q += " REQUIRE SSL"
 		case 1:
 			q += " REQUIRE X509"
-		case 2:
-			q += " COMMENT 'made by seed'"
-		case 3:
-			q += ` ATTRIBUTE '{"k": "v", "n": 1}'`
 		}
 	}
 	st := Step{SQL: q, Kind: "create-user", Target: key}
@@ -174,7 +179,7 @@ func (g *Gen) createUser() Step {
 		st.ExpectErr = !ine
 		return st
 	}
-	g.M.Create(name, host, false, pw)
+	g.M.Create(name, host, false, pw).Plugin = plugin
 	return st
 }
 
@@ -375,6 +380,9 @@ func (g *Gen) grantRole() Step {
 		}
 	}
 	admin := g.Rnd.Intn(4) == 0
+	if g.NoRegrant && g.M.Edges[r.Key()+">"+to.Key()] != nil {
+		return g.grant()
+	}
 	q := fmt.Sprintf("GRANT %s TO %s", g.acctSQL(r), g.acctSQL(to))
 	kind := "grant-role:to-user"
 	if to.IsRole {
